@@ -413,6 +413,36 @@ impl AssocFileData {
         self.get_dependency_flags_from_name_and_scopes_plus_skip(dependency, scopes, skip)
     }
 
+    /// Like [`Self::get_dependency_flags_from_name_skip_n`], but looks for the DECLARATION of a name:
+    /// an earlier `modify name = ..` registers `name` in its own scope as an alias of the captured
+    /// variable ([`Ident::is_modify_alias`]); such entries are not declarations and are passed over.
+    pub fn get_declaration_flags_from_name_skip_n(
+        &self,
+        dependency: &str,
+        skip: usize,
+    ) -> Option<(Ref<Ident>, bool)> {
+        let mut is_callback = false;
+
+        for (count, scope) in self.scopes.iter().enumerate() {
+            if let (true, Ok(flags)) = (
+                count >= skip,
+                Ref::filter_map(Ref::clone(&scope), |scope| {
+                    scope
+                        .contains(dependency)
+                        .filter(|ident| !ident.is_modify_alias())
+                }),
+            ) {
+                return Some((flags, is_callback));
+            }
+
+            if scope.is_function() {
+                is_callback = true;
+            }
+        }
+
+        None
+    }
+
     fn get_dependency_flags_from_name_and_scopes_plus_skip<'a>(
         &'a self,
         dependency: &str,
